@@ -217,7 +217,7 @@ class RF24:
 
     def open_tx_pipe(self, address: Union[bytes, bytearray]) -> None:
         """Open a data pipe for TX transmissions."""
-        if self._pipe0_read_addr != address and self._aa & 1:
+        if self._pipes[0][: len(address)] != address and self._aa & 1:  # type: ignore
             for i, val in enumerate(address):
                 self._pipes[0][i] = val  # type: ignore[assignment, index]
             self._reg_write_bytes(RX_ADDR_P0, address)
